@@ -2554,28 +2554,33 @@ func r5C03b(c *Ctx) {
 	}
 	bad := ""
 	n := 0
-	for _, ret := range returnsOf(fn) {
-		if ret.Block() == fn.Recover || len(ret.Results) != 2 {
-			continue
+	notFound := FTrue(MCall("errors.IsNotFound"))
+	// path by path (a single-exit form returns phis): which (retry, err) pairs can be handed back
+	goneOn := func(cut bool) []*ssa.Return {
+		var out []*ssa.Return
+		o := WalkOpts{}
+		if cut {
+			o.ReachOpts = ReachOpts{CutEdge: func(b *ssa.BasicBlock, k int) bool { return EdgeFactMatches(b, k, notFound) }}
+			o.CutFactEnv = notFound
 		}
-		if e, ok := ret.Results[1].(*ssa.Const); !ok || !e.IsNil() {
-			continue
-		}
-		gone := false
-		for _, lf := range BoolLeaves(ret.Results[0], ret.Block()) {
-			if k, ok := lf.V.(*ssa.Const); ok && constText(k) == "false" {
-				gone = true
+		for _, r := range WalkEnv(Entry(fn), nil, IsReturn, o) {
+			ret := r.Instr.(*ssa.Return)
+			if ret.Block() == fn.Recover || len(ret.Results) != 2 {
+				continue
 			}
+			if v, ok := ResolveConst(ret.Results[1], r.Env); !ok || v != "nil" {
+				continue
+			}
+			if v, ok := ResolveConst(ret.Results[0], r.Env); !ok || v != "false" {
+				continue
+			}
+			out = append(out, ret)
 		}
-		if !gone {
-			continue
-		}
-		n++
-		if r, _ := CanReach(Entry(fn), func(in ssa.Instruction) bool { return in == ssa.Instruction(ret) }, ReachOpts{CutEdge: func(b *ssa.BasicBlock, k int) bool {
-			return EdgeFactMatches(b, k, FTrue(MCall("errors.IsNotFound")))
-		}}); r {
-			bad = "the return at " + p.Pos(ret.Pos()) + " answers (no retry, nil) on a path where the BatchRelease was found"
-		}
+		return out
+	}
+	n = len(goneOn(false))
+	for _, ret := range goneOn(true) {
+		bad = "the return at " + p.Pos(ret.Pos()) + " answers (no retry, nil) on a path where the BatchRelease was found"
 	}
 	c.Ob("R3.10", "removeBatchRelease#gone-means-not-found", fn.Pos(), n > 0 && bad == "", "no-retry is answered only behind IsNotFound",
 		ifs(bad != "", bad+": a BatchRelease that is still terminating survives the reset; the next release finds it with an equal spec and takes its old 'batch Ready' for its own — routing is written for pods that do not exist")+ifs(n == 0, "no gone-return found"))
